@@ -20,3 +20,8 @@ open Pcore.LoaderConc Pcore.Lockset Pcore.LazyCache Pcore.Instantiate
 #print axioms C13_lockset_norace
 #print axioms C13_lockset_ok
 #print axioms C13_impl_norace
+open Pcore.ConcQueue
+#print axioms C13_queue_sites_ok
+#print axioms C13_queue_cfg_current
+#print axioms C13_queue_reslice_loses
+#print axioms C13_queue_keep_resolves_twice
